@@ -198,14 +198,16 @@ theorem lookupG_insertE (k : Bytes) (v : Glyph) (gs : List (Bytes × Glyph)) (hk
 
 /-! ## the decoding loop -/
 
-/-- the entries the loop decodes: the value is a string of at least four bytes -/
-def usableEntries : List (Bytes × Option Bytes) → List (Bytes × Bytes)
+/-- the entries the loop decodes: the value is a string that is not shorter than `lenIV` (every string, when `lenIV`
+is negative) -/
+def usableEntries (lenIV : Int) : List (Bytes × Option Bytes) → List (Bytes × Bytes)
   | [] => []
-  | (n, some ob) :: rest => if ob.length < 4 then usableEntries rest else (n, ob) :: usableEntries rest
-  | (_, none) :: rest => usableEntries rest
+  | (n, some ob) :: rest =>
+    if (ob.length : Int) < lenIV then usableEntries lenIV rest else (n, ob) :: usableEntries lenIV rest
+  | (_, none) :: rest => usableEntries lenIV rest
 
-theorem mem_usableEntries (es : List (Bytes × Option Bytes)) (n ob : Bytes) :
-    (n, ob) ∈ usableEntries es ↔ (n, some ob) ∈ es ∧ 4 ≤ ob.length := by
+theorem mem_usableEntries (lenIV : Int) (es : List (Bytes × Option Bytes)) (n ob : Bytes) :
+    (n, ob) ∈ usableEntries lenIV es ↔ (n, some ob) ∈ es ∧ lenIV ≤ ob.length := by
   induction es with
   | nil => simp [usableEntries]
   | cons e es ih =>
@@ -214,7 +216,7 @@ theorem mem_usableEntries (es : List (Bytes × Option Bytes)) (n ob : Bytes) :
     | none => simp [usableEntries, ih]
     | some ob' =>
       unfold usableEntries
-      by_cases h : ob'.length < 4
+      by_cases h : (ob'.length : Int) < lenIV
       · simp only [h, if_true, ih, List.mem_cons, Prod.mk.injEq, Option.some.injEq]
         constructor
         · rintro ⟨a, b⟩; exact ⟨Or.inr a, b⟩
@@ -230,7 +232,8 @@ theorem mem_usableEntries (es : List (Bytes × Option Bytes)) (n ob : Bytes) :
           · exact Or.inl ⟨a, b⟩
           · exact Or.inr ⟨a, c⟩
 
-theorem usableEntries_sorted (es : List (Bytes × Option Bytes)) (h : SortedBy es) : SortedBy (usableEntries es) := by
+theorem usableEntries_sorted (lenIV : Int) (es : List (Bytes × Option Bytes)) (h : SortedBy es) :
+    SortedBy (usableEntries lenIV es) := by
   unfold SortedBy at *
   induction es with
   | nil => simp [usableEntries]
@@ -247,7 +250,7 @@ theorem usableEntries_sorted (es : List (Bytes × Option Bytes)) (h : SortedBy e
         refine ⟨?_, ih h.2⟩
         intro x hx
         obtain ⟨xn, xo⟩ := x
-        exact h.1 (xn, some xo) ((mem_usableEntries es xn xo).mp hx).1
+        exact h.1 (xn, some xo) ((mem_usableEntries lenIV es xn xo).mp hx).1
 
 /-- the glyph of one usable entry, `none` when its charstring does not decode -/
 def decodedOf (subrs : List (List Nat)) (lenIV : Int) (ob : Bytes) : Option DState :=
@@ -277,8 +280,8 @@ def allDecode (subrs : List (List Nat)) (lenIV : Int) (us : List (Bytes × Bytes
 theorem decodeAll_ok (subrs : List (List Nat)) (lenIV : Int) :
     ∀ (es : List (Bytes × Option Bytes)) (gs : List (Bytes × Glyph)) (ss : List SeacInfo),
       decodeAll subrs lenIV es = .ok (gs, ss) →
-      allDecode subrs lenIV (usableEntries es) ∧ gs = glyphsOf subrs lenIV (usableEntries es) ∧
-        ss = seacsOf subrs lenIV (usableEntries es) ∧ names gs = (usableEntries es).map (·.1) := by
+      allDecode subrs lenIV (usableEntries lenIV es) ∧ gs = glyphsOf subrs lenIV (usableEntries lenIV es) ∧
+        ss = seacsOf subrs lenIV (usableEntries lenIV es) ∧ names gs = (usableEntries lenIV es).map (·.1) := by
   intro es
   induction es with
   | nil =>
@@ -295,7 +298,7 @@ theorem decodeAll_ok (subrs : List (List Nat)) (lenIV : Int) :
       simpa [usableEntries] using ih gs ss h
     | some ob =>
       simp only [decodeAll] at h
-      by_cases hl : ob.length < 4
+      by_cases hl : (ob.length : Int) < lenIV
       · simp only [hl, if_true] at h
         simpa [usableEntries, hl] using ih gs ss h
       · simp only [hl, if_false] at h
@@ -324,7 +327,7 @@ theorem decodeAll_ok (subrs : List (List Nat)) (lenIV : Int) :
 theorem decodeAll_error (subrs : List (List Nat)) (lenIV : Int) :
     ∀ (es : List (Bytes × Option Bytes)) (n : Bytes) (e : DErr),
       decodeAll subrs lenIV es = .error (.cs n e) →
-      ∃ ob, (n, ob) ∈ usableEntries es ∧ decodeCharString subrs (plainOf ob lenIV) = .error e := by
+      ∃ ob, (n, ob) ∈ usableEntries lenIV es ∧ decodeCharString subrs (plainOf ob lenIV) = .error e := by
   intro es
   induction es with
   | nil => intro n e h; simp [decodeAll] at h
@@ -337,7 +340,7 @@ theorem decodeAll_error (subrs : List (List Nat)) (lenIV : Int) :
       simpa [usableEntries] using ih n e h
     | some ob =>
       simp only [decodeAll] at h
-      by_cases hl : ob.length < 4
+      by_cases hl : (ob.length : Int) < lenIV
       · simp only [hl, if_true] at h
         simpa [usableEntries, hl] using ih n e h
       · simp only [hl, if_false] at h
@@ -361,7 +364,7 @@ theorem decodeAll_error (subrs : List (List Nat)) (lenIV : Int) :
 
 /-- every usable charstring decodes, or the whole loop fails -/
 theorem decodeAll_isOk_iff (subrs : List (List Nat)) (lenIV : Int) (es : List (Bytes × Option Bytes)) :
-    (∃ gs ss, decodeAll subrs lenIV es = .ok (gs, ss)) ↔ allDecode subrs lenIV (usableEntries es) := by
+    (∃ gs ss, decodeAll subrs lenIV es = .ok (gs, ss)) ↔ allDecode subrs lenIV (usableEntries lenIV es) := by
   constructor
   · rintro ⟨gs, ss, h⟩
     exact (decodeAll_ok subrs lenIV es gs ss h).1
@@ -399,8 +402,8 @@ theorem seacsOf_names (subrs : List (List Nat)) (lenIV : Int) (us : List (Bytes 
 
 /-! ## composites -/
 
-theorem resolveOne_names (enc : List Bytes) (gs gs' : List (Bytes × Glyph)) (si : SeacInfo)
-    (h : resolveOne enc gs si = some gs') : names gs' = names gs := by
+theorem resolveOne_names (gs gs' : List (Bytes × Glyph)) (si : SeacInfo)
+    (h : resolveOne gs si = some gs') : names gs' = names gs := by
   unfold resolveOne at h
   split at h
   · cases h; rfl
@@ -412,8 +415,8 @@ theorem resolveOne_names (enc : List Bytes) (gs gs' : List (Bytes × Glyph)) (si
     · cases h; rfl
 
 /-- the dereference of `glyphs[seac.name]` is safe as long as the composite's own name is a glyph -/
-theorem resolveOne_some (enc : List Bytes) (gs : List (Bytes × Glyph)) (si : SeacInfo) (h : si.name ∈ names gs) :
-    ∃ gs', resolveOne enc gs si = some gs' := by
+theorem resolveOne_some (gs : List (Bytes × Glyph)) (si : SeacInfo) (h : si.name ∈ names gs) :
+    ∃ gs', resolveOne gs si = some gs' := by
   unfold resolveOne
   split
   · exact ⟨_, rfl⟩
@@ -425,36 +428,36 @@ theorem resolveOne_some (enc : List Bytes) (gs : List (Bytes × Glyph)) (si : Se
       · exact ⟨_, rfl⟩
     · exact ⟨_, rfl⟩
 
-theorem resolveSeacs_some (enc : List Bytes) : ∀ (ss : List SeacInfo) (gs : List (Bytes × Glyph)),
-    (∀ si ∈ ss, si.name ∈ names gs) → ∃ gs', resolveSeacs enc ss gs = some gs' ∧ names gs' = names gs := by
+theorem resolveSeacs_some : ∀ (ss : List SeacInfo) (gs : List (Bytes × Glyph)),
+    (∀ si ∈ ss, si.name ∈ names gs) → ∃ gs', resolveSeacs ss gs = some gs' ∧ names gs' = names gs := by
   intro ss
   induction ss with
   | nil => intro gs _; exact ⟨gs, rfl, rfl⟩
   | cons si ss ih =>
     intro gs h
-    obtain ⟨g1, h1⟩ := resolveOne_some enc gs si (h si List.mem_cons_self)
-    have hn := resolveOne_names enc gs g1 si h1
+    obtain ⟨g1, h1⟩ := resolveOne_some gs si (h si List.mem_cons_self)
+    have hn := resolveOne_names gs g1 si h1
     obtain ⟨g2, h2, h3⟩ := ih g1 (fun s hs => by rw [hn]; exact h s (List.mem_cons_of_mem _ hs))
     refine ⟨g2, ?_, h3.trans hn⟩
     simp [resolveSeacs, h1, h2]
 
-theorem resolveSeacs_names (enc : List Bytes) : ∀ (ss : List SeacInfo) (gs gs' : List (Bytes × Glyph)),
-    resolveSeacs enc ss gs = some gs' → names gs' = names gs := by
+theorem resolveSeacs_names : ∀ (ss : List SeacInfo) (gs gs' : List (Bytes × Glyph)),
+    resolveSeacs ss gs = some gs' → names gs' = names gs := by
   intro ss
   induction ss with
   | nil => intro gs gs' h; simp [resolveSeacs] at h; rw [h]
   | cons si ss ih =>
     intro gs gs' h
     unfold resolveSeacs at h
-    cases h1 : resolveOne enc gs si with
+    cases h1 : resolveOne gs si with
     | none => simp [h1] at h
     | some g1 =>
       simp only [h1] at h
-      exact (ih g1 gs' h).trans (resolveOne_names enc gs g1 si h1)
+      exact (ih g1 gs' h).trans (resolveOne_names gs g1 si h1)
 
 /-- one turn of the loop leaves every glyph other than the composite itself as it was -/
-theorem resolveOne_other (enc : List Bytes) (gs gs' : List (Bytes × Glyph)) (si : SeacInfo) (n : Bytes)
-    (h : resolveOne enc gs si = some gs') (hn : n ≠ si.name) : lookupG gs' n = lookupG gs n := by
+theorem resolveOne_other (gs gs' : List (Bytes × Glyph)) (si : SeacInfo) (n : Bytes)
+    (h : resolveOne gs si = some gs') (hn : n ≠ si.name) : lookupG gs' n = lookupG gs n := by
   unfold resolveOne at h
   split at h
   · cases h; rfl
@@ -467,98 +470,93 @@ theorem resolveOne_other (enc : List Bytes) (gs gs' : List (Bytes × Glyph)) (si
 
 /-- the glyphs that are not composites come out of the loop unchanged: in particular a base glyph is not
 modified by the composites built on it -/
-theorem resolveSeacs_unchanged (enc : List Bytes) : ∀ (ss : List SeacInfo) (gs gs' : List (Bytes × Glyph)) (n : Bytes),
-    resolveSeacs enc ss gs = some gs' → (∀ si ∈ ss, si.name ≠ n) → lookupG gs' n = lookupG gs n := by
+theorem resolveSeacs_unchanged : ∀ (ss : List SeacInfo) (gs gs' : List (Bytes × Glyph)) (n : Bytes),
+    resolveSeacs ss gs = some gs' → (∀ si ∈ ss, si.name ≠ n) → lookupG gs' n = lookupG gs n := by
   intro ss
   induction ss with
   | nil => intro gs gs' n h _; simp [resolveSeacs] at h; rw [h]
   | cons si ss ih =>
     intro gs gs' n h hn
     unfold resolveSeacs at h
-    cases h1 : resolveOne enc gs si with
+    cases h1 : resolveOne gs si with
     | none => simp [h1] at h
     | some g1 =>
       simp only [h1] at h
       rw [ih g1 gs' n h (fun s hs => hn s (List.mem_cons_of_mem _ hs))]
-      exact resolveOne_other enc gs g1 si n h1 (fun e => hn si List.mem_cons_self e.symm)
+      exact resolveOne_other gs g1 si n h1 (fun e => hn si List.mem_cons_self e.symm)
 
-/-- the hypotheses under which one turn of the loop composes: both codes lie in the encoding and name glyphs -/
-structure Composable (enc : List Bytes) (gs : List (Bytes × Glyph)) (si : SeacInfo) (base accent : Glyph) : Prop where
-  codes : codesOK enc si.seac = true
-  base : lookupG gs (codeName enc si.seac.base) = some base
-  accent : lookupG gs (codeName enc si.seac.accent) = some accent
-  own : si.name ∈ names gs
+/-- the hypotheses under which one turn of the loop composes: both codes are in `0 … 255` and their names in the
+standard encoding are glyphs; `own` is the composite as its charstring was decoded -/
+structure Composable (gs : List (Bytes × Glyph)) (si : SeacInfo) (own base accent : Glyph) : Prop where
+  codes : codesOK si.seac = true
+  base : lookupG gs (codeName si.seac.base) = some base
+  accent : lookupG gs (codeName si.seac.accent) = some accent
+  own : lookupG gs si.name = some own
 
 /-- one turn on a composable composite whose accent is not the composite itself -/
-theorem resolveOne_composite (enc : List Bytes) (gs : List (Bytes × Glyph)) (si : SeacInfo) (base accent : Glyph)
-    (hc : Composable enc gs si base accent) (ha : codeName enc si.seac.accent ≠ si.name) :
-    resolveOne enc gs si = some (setG gs si.name (composite base accent.cmds si.seac)) := by
+theorem resolveOne_composite (gs : List (Bytes × Glyph)) (si : SeacInfo) (own base accent : Glyph)
+    (hc : Composable gs si own base accent) (ha : codeName si.seac.accent ≠ si.name) :
+    resolveOne gs si = some (setG gs si.name (composite own base accent.cmds si.seac)) := by
   unfold resolveOne
-  simp only [hc.codes, Bool.not_true, Bool.false_eq_true, if_false, hc.base, hc.accent]
-  cases ho : lookupG gs si.name with
-  | none => exact absurd hc.own ((lookupG_eq_none_iff gs si.name).mp ho)
-  | some g =>
-    simp only [beq_iff_eq, ha, if_false]
+  simp only [hc.codes, Bool.not_true, Bool.false_eq_true, if_false, hc.base, hc.accent, hc.own, beq_iff_eq, ha]
 
 /-- the accent is the composite itself: the loop reads the commands it has just copied from the base -/
-theorem resolveOne_composite_self (enc : List Bytes) (gs : List (Bytes × Glyph)) (si : SeacInfo) (base accent : Glyph)
-    (hc : Composable enc gs si base accent) (ha : codeName enc si.seac.accent = si.name) :
-    resolveOne enc gs si = some (setG gs si.name (composite base base.cmds si.seac)) := by
+theorem resolveOne_composite_self (gs : List (Bytes × Glyph)) (si : SeacInfo) (own base accent : Glyph)
+    (hc : Composable gs si own base accent) (ha : codeName si.seac.accent = si.name) :
+    resolveOne gs si = some (setG gs si.name (composite own base base.cmds si.seac)) := by
   unfold resolveOne
-  simp only [hc.codes, Bool.not_true, Bool.false_eq_true, if_false, hc.base, hc.accent]
-  cases ho : lookupG gs si.name with
-  | none => exact absurd hc.own ((lookupG_eq_none_iff gs si.name).mp ho)
-  | some g =>
-    simp only [beq_iff_eq, ha, if_true]
+  simp only [hc.codes, Bool.not_true, Bool.false_eq_true, if_false, hc.base, hc.accent, hc.own, beq_iff_eq, ha, if_true]
 
-/-- a composite that cannot be composed (a code outside the encoding, or naming no glyph) is left as decoded -/
-theorem resolveOne_skip (enc : List Bytes) (gs : List (Bytes × Glyph)) (si : SeacInfo)
-    (h : codesOK enc si.seac = false ∨ lookupG gs (codeName enc si.seac.base) = none ∨
-      lookupG gs (codeName enc si.seac.accent) = none) : resolveOne enc gs si = some gs := by
+/-- a composite that cannot be composed (a code outside `0 … 255`, or naming no glyph) is left as decoded -/
+theorem resolveOne_skip (gs : List (Bytes × Glyph)) (si : SeacInfo)
+    (h : codesOK si.seac = false ∨ lookupG gs (codeName si.seac.base) = none ∨
+      lookupG gs (codeName si.seac.accent) = none) : resolveOne gs si = some gs := by
   unfold resolveOne
   rcases h with h | h | h
   · simp [h]
-  · by_cases hc : codesOK enc si.seac = true
+  · by_cases hc : codesOK si.seac = true
     · simp [hc, h]
     · simp [hc]
-  · by_cases hc : codesOK enc si.seac = true
+  · by_cases hc : codesOK si.seac = true
     · simp only [hc, Bool.not_true, Bool.false_eq_true, if_false, h]
       split <;> simp_all
     · simp [hc]
 
 /-- **the whole loop**: a composite that occurs once in the list, whose base and accent are themselves not
-composites, ends up as the base's outline followed by the accent's outline moved by `(adx, ady)`, with the base's
-width and stems — whatever other composites there are, on the same base or not, and in whatever order. -/
-theorem resolveSeacs_composite (enc : List Bytes) (pre post : List SeacInfo) (si : SeacInfo)
-    (gs gs' : List (Bytes × Glyph)) (base accent : Glyph)
-    (h : resolveSeacs enc (pre ++ si :: post) gs = some gs')
-    (hc : Composable enc gs si base accent)
+composites, ends up with the base's outline followed by the accent's outline moved by `(adx, ady)`, the base's
+stems and **its own width** — whatever other composites there are, on the same base or not, and in whatever order. -/
+theorem resolveSeacs_composite (pre post : List SeacInfo) (si : SeacInfo)
+    (gs gs' : List (Bytes × Glyph)) (own base accent : Glyph)
+    (h : resolveSeacs (pre ++ si :: post) gs = some gs')
+    (hc : Composable gs si own base accent)
     (hpre : ∀ s ∈ pre, s.name ≠ si.name) (hpost : ∀ s ∈ post, s.name ≠ si.name)
-    (hb : ∀ s ∈ pre, s.name ≠ codeName enc si.seac.base)
-    (ha : ∀ s ∈ pre, s.name ≠ codeName enc si.seac.accent)
-    (hself : codeName enc si.seac.accent ≠ si.name) :
-    lookupG gs' si.name = some (composite base accent.cmds si.seac) := by
+    (hb : ∀ s ∈ pre, s.name ≠ codeName si.seac.base)
+    (ha : ∀ s ∈ pre, s.name ≠ codeName si.seac.accent)
+    (hself : codeName si.seac.accent ≠ si.name) :
+    lookupG gs' si.name = some (composite own base accent.cmds si.seac) := by
   induction pre generalizing gs with
   | nil =>
     simp only [List.nil_append, resolveSeacs] at h
-    rw [resolveOne_composite enc gs si base accent hc hself] at h
+    rw [resolveOne_composite gs si own base accent hc hself] at h
     simp only at h
-    rw [resolveSeacs_unchanged enc post _ gs' si.name h hpost, lookupG_setG]
-    simp [hc.own]
+    rw [resolveSeacs_unchanged post _ gs' si.name h hpost, lookupG_setG]
+    have : si.name ∈ names gs := by
+      rw [← lookupG_isSome_iff, hc.own]; rfl
+    simp [this]
   | cons p pre ih =>
     simp only [List.cons_append, resolveSeacs] at h
-    cases h1 : resolveOne enc gs p with
+    cases h1 : resolveOne gs p with
     | none => simp [h1] at h
     | some g1 =>
       simp only [h1] at h
       have hp1 : si.name ≠ p.name := fun e => hpre p List.mem_cons_self e.symm
-      have hp2 : codeName enc si.seac.base ≠ p.name := fun e => hb p List.mem_cons_self e.symm
-      have hp3 : codeName enc si.seac.accent ≠ p.name := fun e => ha p List.mem_cons_self e.symm
+      have hp2 : codeName si.seac.base ≠ p.name := fun e => hb p List.mem_cons_self e.symm
+      have hp3 : codeName si.seac.accent ≠ p.name := fun e => ha p List.mem_cons_self e.symm
       refine ih g1 h ⟨hc.codes, ?_, ?_, ?_⟩ (fun s hs => hpre s (List.mem_cons_of_mem _ hs))
         (fun s hs => hb s (List.mem_cons_of_mem _ hs)) (fun s hs => ha s (List.mem_cons_of_mem _ hs))
-      · rw [resolveOne_other enc gs g1 p _ h1 hp2]; exact hc.base
-      · rw [resolveOne_other enc gs g1 p _ h1 hp3]; exact hc.accent
-      · rw [resolveOne_names enc gs g1 p h1]; exact hc.own
+      · rw [resolveOne_other gs g1 p _ h1 hp2]; exact hc.base
+      · rw [resolveOne_other gs g1 p _ h1 hp3]; exact hc.accent
+      · rw [resolveOne_other gs g1 p _ h1 hp1]; exact hc.own
 
 /-! ## `.notdef` -/
 
@@ -654,7 +652,7 @@ theorem extract_ok {vm : VM} {dsc : List (String × String)} {f : Font} (h : ext
       asDict vm (dictLookup fd "Private") = some pd ∧ encodingOf vm (dictLookup fd "Encoding") = some enc ∧
       asDict vm (dictLookup fd "CharStrings") = some cs ∧
       decodeAll (subrsOf vm pd (lenIVOf pd)) (lenIVOf pd) (csEntries vm cs) = .ok (gs, ss) ∧
-      resolveSeacs enc ss gs = some gs1 ∧
+      resolveSeacs ss gs = some gs1 ∧
       f = { info := infoOf vm fd fi fm, priv := privOf vm pd, glyphs := addNotdef gs1,
             encoding := fixEncoding (addNotdef gs1) enc, dates := datesOf dsc } := by
   unfold extract at h
@@ -717,7 +715,7 @@ theorem extract_no_panic (vm : VM) (dsc : List (String × String)) (site : Strin
                   split at h
                   · rename_i hres
                     obtain ⟨_, h2, h3, _⟩ := decodeAll_ok _ _ _ gs ss hdec
-                    obtain ⟨g', hg, _⟩ := resolveSeacs_some (by assumption) ss gs (by
+                    obtain ⟨g', hg, _⟩ := resolveSeacs_some ss gs (by
                       intro si hsi
                       rw [h2]; rw [h3] at hsi
                       exact seacsOf_names _ _ _ si hsi)
@@ -755,7 +753,7 @@ theorem mem_csEntries (vm : VM) (cs : List (Name × Obj)) (n : Bytes) (v : Optio
 theorem csEntries_sorted (vm : VM) (cs : List (Name × Obj)) : SortedBy (csEntries vm cs) := sortE_sorted _
 
 theorem extract_ok_stage {vm : VM} {dsc : List (String × String)} {f : Font} (h : extract vm dsc = .ok f) :
-    ∃ enc gs ss gs1, stageOf vm = some (enc, gs, ss) ∧ resolveSeacs enc ss gs = some gs1 ∧
+    ∃ enc gs ss gs1, stageOf vm = some (enc, gs, ss) ∧ resolveSeacs ss gs = some gs1 ∧
       f.glyphs = addNotdef gs1 ∧ f.encoding = fixEncoding (addNotdef gs1) enc := by
   obtain ⟨fd, fi, fm, pd, enc, cs, gs, ss, gs1, h1, h2, h3, h4, h5, h6, h7, h8, h9, rfl⟩ := extract_ok h
   refine ⟨enc, gs, ss, gs1, ?_, h9, rfl, rfl⟩
